@@ -54,6 +54,10 @@ static const item_t ITEMS[] = {
     { { "--alpha", "true" }, E_BOOL_SET, 0x01, 0, 0, 0, 0 },    { { "--alpha=0" }, E_BOOL_CLR, 0x01, 0, 0, 0, 0 },
     { { "-b" }, E_BOOL_SET, 0x02, 0, 0, 0, 0 },                 { { "--beta=false" }, E_BOOL_CLR, 0x02, 0, 0, 0, 0 },
     { { "--gamma" }, E_BOOL_SET, 0x04, 0, 0, 0, 0 },            { { "--gamma=1" }, E_BOOL_SET, 0x04, 0, 0, 0, 0 },
+    /* boolean words are matched without regard to case, whichever letter comes first */
+    { { "--alpha=Off" }, E_BOOL_CLR, 0x01, 0, 0, 0, 0 },        { { "--beta", "NO" }, E_BOOL_CLR, 0x02, 0, 0, 0, 0 },
+    { { "--gamma", "Yes" }, E_BOOL_SET, 0x04, 0, 0, 0, 0 },     { { "--beta=FALSE" }, E_BOOL_CLR, 0x02, 0, 0, 0, 0 },
+    { { "--gamma=TRUE" }, E_BOOL_SET, 0x04, 0, 0, 0, 0 },
     { { "-v" }, E_BOOL_SET, 0x08, 0, 0, 0, 0 },                 { { "--verbose=off" }, E_BOOL_CLR, 0x08, 0, 0, 0, 0 },
     { { "-ab" }, E_BOOL_SET, 0x01, 0, 0x02, 0, 0 },             { { "-bva" }, E_BOOL_SET, 0x01, 0, 0x0a, 0, 0 },
     { { "-abf", "X" }, E_BOOL_SET, 0x01, 0, 0x02, 1, "X" },     { { "-afX" }, E_BOOL_SET, 0x01, 0, 0, 1, "X" },
